@@ -1,6 +1,6 @@
 (* C11 — Step matching and dispatch: full-text match, right definition, right arguments.
    Statements only; proofs are in theories/StepMatchProofs.v. *)
-From BV Require Import Base UStr StepMatch StepMatchProofs.
+From BV Require Import Base UStr StepMatch StepMatchProofs Regex RegexProofs.
 
 (* A successful match splits the text into the pattern's literals and field pieces - every literal verbatim
    (case-sensitively), every field piece in its field's language -, with nothing left over when the pattern is anchored
@@ -110,6 +110,38 @@ Theorem matcher_switches_take_effect_for_later_registrations :
   (r_default (fst (rstep r CurrentAsDefault)) = r_current r /\ r_current (fst (rstep r CurrentAsDefault)) = r_current r).
 Proof. exact matcher_switches. Qed.
 Print Assumptions matcher_switches_take_effect_for_later_registrations.
+
+(* regular expressions (the `re` and `re0` matchers) beyond flat patterns: alternation, greedy and lazy * + ?, named,
+   unnamed, nested and optional groups.  The backtracking matcher with Python's priority order is sound: *)
+Theorem a_regex_anchored_at_the_end_binds_only_complete_texts :
+  forall r text cs, rx_match true r text = Some cs -> lang r text.
+Proof. exact anchored_regex_matches_only_complete_texts. Qed.
+Print Assumptions a_regex_anchored_at_the_end_binds_only_complete_texts.
+
+Theorem every_successful_regex_match_consumes_a_member_of_the_language :
+  forall r idx fuel rest pos cs k res, mrx r idx fuel rest pos cs k = Some res ->
+  exists piece rest' cs', rest = piece ++ rest' /\ lang r piece /\ k rest' (pos + length piece) cs' = Some res.
+Proof. exact mrx_sound. Qed.
+Print Assumptions every_successful_regex_match_consumes_a_member_of_the_language.
+
+Theorem regex_arguments_are_unset_or_delimit_their_original_text :
+  forall anch r text args, rx_check_match anch r text = Some args ->
+  Forall (fun a => match ra_span a with
+                   | None => ra_text a = None
+                   | Some (s, e) => s <= e <= length text /\ ra_text a = Some (firstn (e - s) (skipn s text))
+                   end) args.
+Proof. exact reported_arguments_delimit_their_text. Qed.
+Print Assumptions regex_arguments_are_unset_or_delimit_their_original_text.
+
+Example a_regex_with_alternation_optional_and_nested_groups :
+  (* (?P<a>x|(y))(?: and (\w+))?  *)
+  let r := RSeq (RGroup (Some [97%N]) (RAlt (RChar 120) (RGroup None (RChar 121))))
+                (ROpt true (RSeq (RSeq (RSeq (RSeq (RSeq (RChar 32) (RChar 97)) (RChar 110)) (RChar 100)) (RChar 32)) (RGroup None (RPlus true (RClass CWord))))) in
+  rx_check_match true r [121; 32; 97; 110; 100; 32; 122; 122]%N =
+    Some [mkRArg (Some (0, 1)) (Some [121%N]) (Some [97%N]); mkRArg (Some (0, 1)) (Some [121%N]) None; mkRArg (Some (6, 8)) (Some [122; 122]%N) None] /\
+  rx_check_match true r [120%N] = Some [mkRArg (Some (0, 1)) (Some [120%N]) (Some [97%N]); mkRArg None None None; mkRArg None None None] /\
+  rx_check_match true r [120; 32]%N = None /\ rx_check_match false r [120; 32]%N <> None.
+Proof. vm_compute. repeat split; discriminate. Qed.
 
 (* non-vacuity: "I have {n:d} and {what}" against "I have 12 and x y"; type-specific before generic; ambiguity *)
 Example a_small_registry :
